@@ -4,6 +4,7 @@ package main
 
 import (
 	"fmt"
+	"math"
 	"strconv"
 	"strings"
 	"sync"
@@ -155,6 +156,9 @@ func init() {
 					}
 				}
 				g.emit(append([]string{"readd"}, ts...)...)
+				if i%2 == 0 {
+					g.emit(append([]string{"hist"}, ts...)...)
+				}
 			}
 			// the same new tuple looked up by several goroutines at once
 			nc, rounds := 12, 300
@@ -308,8 +312,81 @@ func c08Readd(tuples [][]string) []string {
 	return bad
 }
 
+// c08Hist: the tuples of a histogram metric have their own bucket counts.
+func c08Hist(tuples [][]string) []string {
+	keys := make([]string, len(tuples[0]))
+	for i := range keys {
+		keys[i] = fmt.Sprintf("k%d", i)
+	}
+	m := metrics.NewMetric("h", "p", metrics.Histogram, metrics.Buckets, keys...)
+	m.Buckets = []datum.Range{{Min: 0, Max: 1}, {Min: 1, Max: 2}, {Min: 2, Max: math.Inf(1)}}
+	var ds []datum.Datum
+	for _, t := range tuples {
+		d, err := m.GetDatum(t...)
+		if err != nil {
+			return []string{"GetDatum: " + err.Error()}
+		}
+		ds = append(ds, d)
+	}
+	counts := func(d datum.Datum) string {
+		b := datum.GetBuckets(d)
+		var cs []string
+		for _, bc := range b.Buckets {
+			cs = append(cs, fmt.Sprint(bc.Count))
+		}
+		return strings.Join(cs, ",") + fmt.Sprintf("/n%d", b.Count)
+	}
+	var bad []string
+	// observe i+1 values on tuple i, spread over the buckets
+	for i, d := range ds {
+		for k := 0; k <= i; k++ {
+			datum.Observe(d, float64(k)+0.5, time.Unix(1000, 0))
+		}
+	}
+	for i, d := range ds {
+		want := []int{0, 0, 0}
+		for k := 0; k <= i; k++ {
+			j := k
+			if j > 2 {
+				j = 2
+			}
+			want[j]++
+		}
+		w := fmt.Sprintf("%d,%d,%d/n%d", want[0], want[1], want[2], i+1)
+		if got := counts(d); got != w {
+			bad = append(bad, fmt.Sprintf("tuple %s holds bucket counts %s after its own %d observations, want %s", hxs(tuples[i]), got, i+1, w))
+		}
+	}
+	// a tuple deleted and created again starts empty
+	if len(bad) == 0 {
+		_ = m.RemoveDatum(tuples[0]...)
+		d, err := m.GetDatum(tuples[0]...)
+		if err != nil {
+			return []string{"GetDatum after delete: " + err.Error()}
+		}
+		if got := counts(d); got != "0,0,0/n0" {
+			bad = append(bad, fmt.Sprintf("tuple %s, deleted and created again, starts with bucket counts %s", hxs(tuples[0]), got))
+		}
+	}
+	return bad
+}
+
 func c08Run(r *runCtx, id string, f []string) {
 	switch f[0] {
+	case "hist":
+		var tuples [][]string
+		for _, t := range f[1:] {
+			tuples = append(tuples, unhxs(t))
+		}
+		bad := c08Hist(tuples)
+		if len(bad) > 0 {
+			r.obs(id, "hist BAD")
+			r.fail(id, "tuple-aliasing", "histogram metric with %d tuples: %s", len(tuples), strings.Join(bad, "; "))
+		} else {
+			r.obs(id, "hist ok")
+			r.ok(id)
+		}
+		r.stat("hist")
 	case "readd":
 		var tuples [][]string
 		for _, t := range f[1:] {
